@@ -181,6 +181,27 @@ func runC14Sequence(ctx context.Context, run *common.Run, st *c14Stats, idx int,
 		rng.Read(b)
 		return b
 	}
+	// every tenth sequence starts with one transaction delivered three times and then announced
+	var sentTxs []*wire.MsgTx
+	repeatTx := idx%10 == 3
+	if repeatTx {
+		tx := MkTx(rng, 25)
+		sentTxs = append(sentTxs, tx)
+		for _, kind := range []string{"tx", "tx-again", "tx-ext-again", "inv-of-delivered-tx", "tx-again"} {
+			var f []byte
+			switch kind {
+			case "tx-ext-again":
+				f = ExtFrame("tx", TxBytes(tx))
+			case "inv-of-delivered-tx":
+				f = Frame("inv", InvPayload(1, []bitcoin.Hash32{*tx.TxHash()}))
+			default:
+				f = Frame("tx", TxBytes(tx))
+			}
+			if !send(kind, f) {
+				break
+			}
+		}
+	}
 	for i := 0; i < nmsg; i++ {
 		ok := true
 		switch k := rng.Intn(20); {
@@ -220,7 +241,22 @@ func runC14Sequence(ctx context.Context, run *common.Run, st *c14Stats, idx int,
 			}
 			ok = send(fmt.Sprintf("inv-%d-type%d", n, typ), Frame("inv", InvPayload(typ, hs)))
 		case k < 14: // tx classic / extended, unsolicited
+			if len(sentTxs) > 0 && (repeatTx || rng.Intn(3) == 0) {
+				// the same transaction again (relayed by several of the peer's neighbours), or its
+				// txid announced after it was delivered
+				tx := sentTxs[rng.Intn(len(sentTxs))]
+				switch rng.Intn(3) {
+				case 0:
+					ok = send("tx-again", Frame("tx", TxBytes(tx)))
+				case 1:
+					ok = send("tx-ext-again", ExtFrame("tx", TxBytes(tx)))
+				default:
+					ok = send("inv-of-delivered-tx", Frame("inv", InvPayload(1, []bitcoin.Hash32{*tx.TxHash()})))
+				}
+				break
+			}
 			tx := MkTx(rng, []int{0, 25, 1000, 100000}[rng.Intn(4)])
+			sentTxs = append(sentTxs, tx)
 			if rng.Intn(2) == 0 {
 				ok = send("tx", Frame("tx", TxBytes(tx)))
 			} else {
